@@ -515,9 +515,9 @@ def multiple_judge(k, name, ty, w, sgn, isf, dirn, fn_):
                 res.append(R.ob(pid, 'multiple', R.REFUTED, 'result - x = %s: %s  [%s]' % (P.show_poly(W, limit=3), why, desc), where=R.where_of(it, t), kernel=k.source()))
             else:
                 res.append(R.ob(pid, 'multiple', R.UNDECIDED, 'result - x = %s: %s  [%s]' % (P.show_poly(W, limit=3), why, desc), kernel=k.source()))
-        if not isf and w < 32 and any(r_['status'] == R.UNDECIDED for r_ in res):
-            # 8- and 16-bit types: the C++ arithmetic is done on promoted operands and cannot overflow, so every input with a representable answer is in the
-            # domain; an undecided path is refuted when the derived term, evaluated exactly at a corner of the type's range, is not the multiple the
+        if not isf and (w < 32 or not sgn) and any(r_['status'] == R.UNDECIDED for r_ in res):
+            # 8- and 16-bit types: the C++ arithmetic is done on promoted operands and cannot overflow (and unsigned arithmetic of any width is modular, never
+            # undefined), so every input with a representable answer is in the domain; an undecided path is refuted when the derived term, evaluated exactly at a corner of the type's range, is not the multiple the
             # direction defines (witness search: it only ever turns UNDECIDED into REFUTED)
             wt = corner_witness(t, w, sgn, dirn)
             if wt:
@@ -536,8 +536,9 @@ def corner_witness(t, w, sgn, dirn):
     lo, hi = (-(1 << (w - 1)), (1 << (w - 1)) - 1) if sgn else (0, (1 << w) - 1)
     x_in, m_in = tm.inp('x', 0, w), tm.inp('m', 0, w)
     xs = [lo, lo + 1, lo + 2, hi, hi - 1, hi - 2] + ([-2, -1, 0, 1, 2] if sgn else [0, 1, 2])
-    for mv in (3, 5, 7, 9, 10, 100, 2, 1):
-        for xv in xs:
+    big = [3 << (w - 2), (1 << (w - 1)) + 1] if (not sgn and w >= 32) else []        # multiples above half the range: 2 * remainder does not fit the type
+    for mv in (3, 5, 7, 9, 10, 100, 2, 1) + tuple(big):
+        for xv in xs + ([mv - 1, mv + 1, mv - mv // 12, mv // 2 + 1, mv // 2 - 1] if mv in big else []):
             fl = (xv // mv) * mv
             ce = -((-xv) // mv) * mv
             if dirn == 'floor':
